@@ -96,9 +96,11 @@ def main(argv=None):
     known_keys = {k['key']: k for k in known if k['property'] == pid}
 
     errors = [r for r in main_results if r.get('error')]
-    obligations = [o for r in main_results for o in r['obligations']]
-    refuted = [o for o in obligations if o['status'] == 'refuted']
-    unknown = [o for o in obligations if o['status'] not in ('discharged', 'refuted')]
+    all_obs = [o for r in main_results for o in r['obligations']]
+    bounded_obs = [o for o in all_obs if o.get('bounded')]
+    obligations = [o for o in all_obs if not o.get('bounded')]
+    refuted = [o for o in all_obs if o['status'] == 'refuted']
+    unknown = [o for o in all_obs if o['status'] not in ('discharged', 'refuted')]
     discharged = [o for o in obligations if o['status'] == 'discharged']
 
     violations, known_hits = [], []
@@ -175,6 +177,13 @@ def main(argv=None):
             if a not in assumptions:
                 assumptions.append(a)
     bounded = [b for r in main_results for b in r.get('bounded', [])]
+    if bounded_obs:
+        groups = {}
+        for o in bounded_obs:
+            g = groups.setdefault(str(o['bounded']), {'bound': str(o['bounded']), 'checks': 0, 'passed': 0})
+            g['checks'] += 1
+            g['passed'] += o['status'] == 'discharged'
+        bounded += [dict(what='bounded stand-in obligations (NOT counted in obligations/discharged)', **g) for g in groups.values()]
     samples = []
     for r in main_results:
         for o in r['obligations'][:2]:
